@@ -14,7 +14,7 @@
         required option, 6 declaration outside
         the statement (key with a dot or a leading '-', or nothing left by the signature rules). *)
 From JV Require Import Lib.Base Model.C07Decl Model.C07Parse
-  Proofs.C07TableProofs Proofs.C07ParseProofs Proofs.C07Proofs.
+  Proofs.C07TableProofs Proofs.C07ParseProofs Proofs.C07MemberProofs Proofs.C07Proofs.
 
 (* The core: for EVERY group key, EVERY field list (any length), ANY loaders and EVERY input mix inside the guard,
    the four styles give the same accept/reject/exit decision, the same nested values and the same dumped
@@ -144,14 +144,11 @@ Theorem C07_dotted_group_key_null_refuted :
 Proof. exact dotted_group_key_null_refuted. Qed.
 Print Assumptions C07_dotted_group_key_null_refuted.
 
-(* parse_object({'g': 5}): rejected by the dotted style ("expects a mapping"), the others replace the group by 5 *)
-Theorem C07_group_key_scalar_refuted :
-  exists pv jl gk fs inp,
-    finding_class pv gk fs inp = 4%N
-    /\ is_reject (run pv jl (as_dotted gk (norm fs)) inp) = true
-    /\ (exists c d, run pv jl (as_class_group gk fs) inp = Ok (c, d) /\ lookup gk c = Some (TLeaf (VInt 5))).
-Proof. exact group_key_scalar_refuted. Qed.
-Print Assumptions C07_group_key_scalar_refuted.
+(* parse_object({'g': 5}) — the former finding group-key-scalar, fixed in the tree (d768470): all styles reject *)
+Example C07_group_key_scalar_now_rejected :
+  is_reject (run w_pv w_jl (as_dotted w_g (norm w_fields)) w_in_obj_five) = true
+  /\ is_reject (run w_pv w_jl (as_class_group w_g w_fields) w_in_obj_five) = true.
+Proof. exact group_key_scalar_now_rejected. Qed.
 
 (* key my-g, fields f:int (required), a:int=1; parse_args(['--my-g.f=2']): rejected by the inner-parser style
    only; accepted once required_args is prefixed like the dests (the repaired model) *)
@@ -182,3 +179,73 @@ Theorem C07_grouped_styles_agree_on_all_inputs_fixed :
     /\ run pv jl (as_inner_parser_fixed (dashes ++ gk) (norm fs)) inp = run pv jl (as_class_group gk fs) inp.
 Proof. exact grouped_styles_agree_fixed. Qed.
 Print Assumptions C07_grouped_styles_agree_on_all_inputs_fixed.
+
+(* ================= members: declaration-time default overrides, dataclass-typed members =================
+   as_dotted_m / as_dataclass_m / as_class_group_m / as_inner_parser_m are the compilers the correspondence judges
+   (Corr/C07Judge.v): leaves may carry an overriding default given at declaration (default=<instance> /
+   default=<dict> / plain default=), members may be dataclass-typed (one nested sub-group).  The signature styles
+   add every parameter with its SIGNATURE default and then run parser.set_defaults over the mapping, entry by
+   entry (find the action by dest, set its default; a whole-group entry is expanded, then the NEXT entry). *)
+
+(* The core for every FLAT member list, with or without overrides, complete or partial mapping: same answers.
+   finding_class_m = 0 is the guard the judge uses (v_class). *)
+Theorem C07_four_styles_agree_m :
+  forall (pv jl : str -> val) (full : bool) (gk : str) (ms : list member) (inp : input),
+    finding_class_m pv gk ms inp = 0%N ->
+    let r := run pv jl (as_dotted_m gk (mnorm ms)) inp in
+    (exists Tc, as_class_group_m full gk ms = Some Tc /\ run pv jl Tc inp = r)
+    /\ (exists Td, as_dataclass_m (dashes ++ gk) ms = Some Td /\ run pv jl Td inp = r)
+    /\ run pv jl (as_inner_parser_m (dashes ++ gk) (mnorm ms)) inp = r.
+Proof. exact four_styles_agree_m. Qed.
+Print Assumptions C07_four_styles_agree_m.
+
+(* No override is lost and none lands on another parameter: after the set_defaults pass the signature styles hold
+   exactly the table the inner-parser style builds with the overriding defaults inline (= load row + dotted table). *)
+Theorem C07_grouped_tables_equal_m :
+  forall (full : bool) (gk : str) (os : list ofield),
+    well_formed_m gk (map MLeaf os) = true -> hyphen_defaults gk (map MLeaf os) = false ->
+    let T := with_load gk (as_dotted_m gk (mnorm (map MLeaf os))) in
+    as_class_group_m full gk (map MLeaf os) = Some T
+    /\ as_dataclass_m (dashes ++ gk) (map MLeaf os) = Some T
+    /\ as_inner_parser_m (dashes ++ gk) (mnorm (map MLeaf os)) = T.
+Proof. exact grouped_tables_equal_m. Qed.
+Print Assumptions C07_grouped_tables_equal_m.
+
+(* the set_defaults pass itself (the sequential find-and-set of _core.py:190-216), for any list of parameters
+   with pairwise different dash-free names, any already-processed prefix `done` that holds none of their dests *)
+Theorem C07_set_defaults_in_order :
+  forall (full : bool) (gk : str), has_dash gk = false ->
+  forall (nl : list ofield) (done : list row),
+    forallb (fun o => negb (has_dash (oname o))) nl = true ->
+    nodupb (map oname nl) = true ->
+    forallb ov_ok nl = true ->
+    (forall o r, In o nl -> In r done -> is_leaf_at (key gk (o_field o)) r = false) ->
+    set_defaults (done ++ map (fun o => mk gk (o_field o)) nl) (with_prefix gk (flat_map (oentry full) nl))
+    = Some (done ++ map (fun o => mk gk (eff o)) nl).
+Proof. exact set_defaults_flat. Qed.
+Print Assumptions C07_set_defaults_in_order.
+
+Example C07_member_guard_satisfiable :
+  finding_class_m w_pv w_g w_over_members w_in_plain = 0%N
+  /\ group_value (run w_pv w_jl (as_dotted_m w_g (mnorm w_over_members)) (w_args [])) w_g w_a = Some (VInt 5).
+Proof. exact member_guard_example. Qed.
+
+(* a nested declaration with overrides before, inside and AFTER the nested member (class 7: the compilers are
+   only tied by the correspondence there; this instance is kernel-evaluated) *)
+Example C07_nested_tables_example :
+  well_formed_m w_g w_nested_members = true
+  /\ as_class_group_m false w_g w_nested_members = Some (as_inner_parser_m (dashes ++ w_g) (mnorm w_nested_members))
+  /\ as_dataclass_m (dashes ++ w_g) w_nested_members = Some (as_inner_parser_m (dashes ++ w_g) (mnorm w_nested_members))
+  /\ leaf_rows_of (as_inner_parser_m (dashes ++ w_g) (mnorm w_nested_members))
+     = t_rows (as_dotted_m w_g (mnorm w_nested_members)).
+Proof. exact nested_tables_example. Qed.
+
+(* key my-g, a:int=1 overridden by 5: add_class_arguments(..., 'my-g', default={'a': 5}) raises NSKeyError *)
+Theorem C07_hyphen_key_default_override_refuted :
+  exists full gk ms,
+    finding_class_m (fun s => VStr s) gk ms {| i_env := []; i_entry := EArgs [] |} = 8%N
+    /\ as_class_group_m full gk ms = None
+    /\ as_dataclass_m (dashes ++ gk) ms = None
+    /\ as_class_group_m full (gdest gk) ms = Some (as_inner_parser_m (dashes ++ gdest gk) (mnorm ms)).
+Proof. exact hyphen_key_default_override_refuted. Qed.
+Print Assumptions C07_hyphen_key_default_override_refuted.
